@@ -433,6 +433,16 @@ impl EntriesIter {
         Some(Ok(entry))
     }
 
+    /// Apply the filter to a deferred entry before it is yielded
+    fn filtered(&mut self, entry: VfsEntry) -> Option<VfsEntry> {
+        if let Some(filter) = &mut self.filter {
+            if !(filter)(&entry) {
+                return None;
+            }
+        }
+        Some(entry)
+    }
+
     /// Filter on entries such that only entries that match the given predicate are returned
     /// by calls to next(). This is convenient as you don't have to deal with a result type
     /// using this function.
@@ -480,7 +490,10 @@ impl Iterator for EntriesIter {
             // Return deferred directories if we've already processed their children
             if self.opts.contents_first && self.iters.len() < self.deferred.len() {
                 if let Some(entry) = self.deferred.pop() {
-                    return Some(Ok(entry));
+                    match self.filtered(entry) {
+                        Some(entry) => return Some(Ok(entry)),
+                        None => continue, // None indicates filtered out so get another
+                    }
                 }
             }
 
@@ -503,9 +516,11 @@ impl Iterator for EntriesIter {
         }
 
         // Return root directory for deferred case
-        if self.opts.contents_first && self.iters.len() < self.deferred.len() {
+        while self.opts.contents_first && self.iters.len() < self.deferred.len() {
             if let Some(entry) = self.deferred.pop() {
-                return Some(Ok(entry));
+                if let Some(entry) = self.filtered(entry) {
+                    return Some(Ok(entry));
+                }
             }
         }
 
